@@ -283,7 +283,7 @@ impl Part for DirectFlush {
             .into()
     }
     fn cases(&self, tier: Tier) -> usize {
-        tier.pick(2_500, 150_000)
+        tier.pick(2_500, 60_000)
     }
     fn batch_size(&self) -> usize {
         8
@@ -547,7 +547,7 @@ impl Part for SamplerFlush {
             .into()
     }
     fn cases(&self, tier: Tier) -> usize {
-        tier.pick(400, 20_000)
+        tier.pick(400, 8_000)
     }
     fn batch_size(&self) -> usize {
         4
